@@ -121,6 +121,84 @@ def flat(pc):
             yield c
 
 
+# ---------------------------------------------------------------- D5: what the public step functions hand to the step equations
+class WrapDom(alg.Alg):
+    """the step functions proper (trailing underscore) stay uninterpreted; after such a call every field of the controller holds an
+    unknown new value, so a read behind it cannot pass for a read of the previous state"""
+    def __init__(self, names, inner):
+        alg.Alg.__init__(self, names)
+        self.inner = inner
+        self.ncall = 0
+
+    def call(self, name, args, ins, interp, st, fn):
+        if name in self.inner:
+            self.ncall += 1
+            st.calls.append((name, list(args)))
+            for key, nm in self.names.items():
+                st.store[key] = (self.sym('after%d_%s' % (self.ncall, nm), real=True), llir.DOUBLE)
+            return self.sym('ret%d_%s' % (self.ncall, name), real=True)
+        return alg.Alg.call(self, name, args, ins, interp, st, fn)
+
+
+def derivations(ctx):
+    """err = set - fdb; ec = err - (the error stored by the previous step), read before anything is updated; the fuzzy controllers
+    schedule their gains from (ec, err) BEFORE the step that uses them; the arguments reach the step equations in the documented order"""
+    rep = ctx.rep
+    S_, F_ = sp.Symbol('set', real=True), sp.Symbol('fdb', real=True)
+    E = S_ - F_
+    PREV = sp.Symbol('pid.err', real=True)
+    table = {
+        ('pid', 'a_pid_run', 'a_pid', ''): [('a_pid_run_', ['ctx', S_, F_, E])],
+        ('pid', 'a_pid_pos', 'a_pid', ''): [('a_pid_pos_', ['ctx', F_, E])],
+        ('pid', 'a_pid_inc', 'a_pid', ''): [('a_pid_inc_', ['ctx', F_, E])],
+        ('pid_neuro', 'a_pid_neuro_run', 'a_pid_neuro', 'pid.'): [('a_pid_neuro_run_', ['ctx', S_, F_, E, E - PREV])],
+        ('pid_neuro', 'a_pid_neuro_inc', 'a_pid_neuro', 'pid.'): [('a_pid_neuro_inc_', ['ctx', F_, E, E - PREV])],
+        ('pid_fuzzy', 'a_pid_fuzzy_run', 'a_pid_fuzzy', 'pid.'): [('a_pid_fuzzy_out_', ['ctx', E - PREV, E]), ('a_pid_run_', ['ctx', S_, F_, E])],
+        ('pid_fuzzy', 'a_pid_fuzzy_pos', 'a_pid_fuzzy', 'pid.'): [('a_pid_fuzzy_out_', ['ctx', E - PREV, E]), ('a_pid_pos_', ['ctx', F_, E])],
+        ('pid_fuzzy', 'a_pid_fuzzy_inc', 'a_pid_fuzzy', 'pid.'): [('a_pid_fuzzy_out_', ['ctx', E - PREV, E]), ('a_pid_inc_', ['ctx', F_, E])],
+    }
+    inner = set(n for v in table.values() for n, _ in v)
+    for (unit, fname, sname, prefix), want in table.items():
+        fn = ctx.fn(unit, fname)
+        if fn is None:
+            rep.unk('D5', fname, 'anchor vanished')
+            continue
+        loc = fn.loc(fn.entry.instrs[0])
+        try:
+            names = field_names(ctx, unit, sname)
+            # the previous error is called pid.err in every controller
+            names = {k: (v if prefix or v != 'err' else 'pid.err') for k, v in names.items()}
+            dom = WrapDom(names, inner)
+            it = symx.Interp(dom, lambda n: None)
+            lv = it.run(fn, [Ptr('ctx', 0), dom.sym('set', real=True), dom.sym('fdb', real=True)])
+            probs = []
+            for lf in lv:
+                calls = [c for c in lf.calls if isinstance(c, tuple) and c[0] in inner]
+                if [c[0] for c in calls] != [n for n, _ in want]:
+                    probs.append('calls %s, expected %s' % ([c[0] for c in calls], [n for n, _ in want]))
+                    continue
+                for (cn, ca), (_, wa) in zip(calls, want):
+                    if len(ca) != len(wa):
+                        probs.append('%s gets %d arguments' % (cn, len(ca)))
+                        continue
+                    for k_, (a_, w_) in enumerate(zip(ca, wa)):
+                        if w_ == 'ctx':
+                            if not (isinstance(a_, Ptr) and a_.base == 'ctx'):
+                                probs.append('%s: argument %d is %s, expected the controller' % (cn, k_ + 1, a_))
+                        elif isinstance(a_, Ptr) or not alg.is_zero(sp.sympify(a_) - w_):
+                            probs.append('%s: argument %d is %s, expected %s' % (cn, k_ + 1, a_, w_))
+                if not (lf.ret is not None and str(lf.ret).startswith('ret%d_' % len(want))):
+                    probs.append('returns %s, expected the result of %s' % (lf.ret, want[-1][0]))
+            if not lv:
+                probs.append('no path')
+            if probs:
+                rep.bad('D5', fname, '; '.join(sorted(set(probs))[:2]), loc=loc, key='%s: derivation of err / ec' % fname)
+            else:
+                rep.ok('D5', fname, '%s' % '; then '.join('%s(%s)' % (n, ', '.join(map(str, a))) for n, a in want), loc=loc, sample={'fn': fname, 'calls': [n for n, _ in want]})
+        except Unsupported as e:
+            rep.unk('D5', fname, str(e), loc=loc)
+
+
 def run(ctx):
     rep = ctx.rep
     rep.explanation = ('every step function is abstractly interpreted over exact real-closed terms with the controller state and inputs '
@@ -183,6 +261,8 @@ def run(ctx):
     integrator(ctx, results)
     equations(ctx, results)
     zero(ctx, results)
+    derivations(ctx)
+    rep.floor('D5', 8)
     # the fuzzy gain scheduler feeding the PID step: buffer discipline, weighted mean, guarded normaliser (shared with C13)
     from props import C13_fuzzy
     C13_fuzzy.run(ctx)
